@@ -584,10 +584,24 @@ def install_observers(run, patch):
             uu_ = np.ravel(u)
             if not any(np.allclose(uu_, a, rtol=0, atol=1e-12) for a in allowed):
                 run.v("C15", "training set is selected around a point that is not the current incumbent", "neighbours-wrong-centre/%s" % run.phase, (uu_.tolist(), allowed[0].tolist()))
+        # the metric of the selection is the GP's own: once the object has been through a local fit, the stored length scales
+        # are those of its current hyperparameters (single hyperparameter sample, per-coordinate length scales)
+        if getattr(gp, "_verif_fitted", False) and np.size(ls) > 1:
+            try:
+                hy_ = gp.get_hyperparameters()
+                if len(hy_) == 1:
+                    want_ = np.exp(np.ravel(hy_[0]["covariance_log_lengthscale"]))
+                    if want_.shape == np.shape(np.ravel(ls)) and not np.allclose(np.ravel(ls), want_, rtol=1e-9, atol=0):
+                        run.v("C15", "neighbour selection uses length scales that are not those of the GP's current hyperparameters", "neighbours-stale-length-scales",
+                              (np.ravel(ls).tolist(), want_.tolist()))
+            except Exception:  # noqa
+                pass
         out = o_lgf(gp, u, fl, options, optim_state, ih, refit)
         g = out[0]
         try:
             g._verif_centre = np.ravel(u).copy() if run.phase in ("poll", "search") else None   # per GP object (copies carry it along)
+            if refit:
+                g._verif_fitted = True
         except Exception:  # noqa
             pass
         check_gp("local", g, fl)
